@@ -1,16 +1,16 @@
 import QV.C02.LemmasTop
-import QV.C02.LemmasKinds2
+import QV.C02.LemmasKinds3
 /-!
 C02 lemmas, part 6 (core Lean only): the proved subset `provedKind` — dispatch of the per-kind lemmas, "prints
 on one line", "prints without error".
 -/
 namespace QV.C02
-open QV QV.Tok QV.Ast QV.Parse QV.Print QV.ExprPrint
+open QV QV.Tok QV.Ast QV.Parse QV.Print QV.ExprPrint QV.ExprRoundTrip
 
 /-- the per-kind round-trip lemmas, dispatched: every `Parsed` instruction of a proved kind round-trips to
 itself at every depth budget -/
 theorem rt_of_provedKind (F : NumFmt) (d : Nat) (i : Instruction) (hp : parsedInstr i = true)
-    (hk : provedKind i = true) : RT F d i i := by
+    (hk : provedKind i = true) (hn : numTokInstr F i = true) (hd : (toks F i).length ≤ d) : RT F d i i := by
   cases i with
   | arithmetic a => exact rt_arithmetic F d a hp
   | binaryLogic a => exact rt_binaryLogic F d a hp
@@ -34,6 +34,13 @@ theorem rt_of_provedKind (F : NumFmt) (d : Nat) (i : Instruction) (hp : parsedIn
   | reset a => exact rt_reset F d a hp
   | measurement a => exact rt_measurement F d a hp
   | pragma a => exact rt_pragma F d a
+  | gate a => exact rt_gate F d a hp hn hd
+  | setFrequency a => exact rt_setFrequency F d a hp hn hd
+  | setPhase a => exact rt_setPhase F d a hp hn hd
+  | setScale a => exact rt_setScale F d a hp hn hd
+  | shiftFrequency a => exact rt_shiftFrequency F d a hp hn hd
+  | shiftPhase a => exact rt_shiftPhase F d a hp hn hd
+  | swapPhases a => exact rt_swapPhases F d a hp
   | _ => simp [provedKind] at hk
 
 theorem nl_intToks (v : Int) : Token.newLine ∉ intToks v := by
@@ -47,7 +54,11 @@ theorem nl_comp (o : ComparisonOperand) : Token.newLine ∉ compOperandToks o :=
   cases o <;> simp [compOperandToks, nl_intToks, nl_realLitToks, nl_memRefToks]
 theorem nl_bin (o : BinaryOperand) : Token.newLine ∉ binOperandToks o := by
   cases o <;> simp [binOperandToks, nl_intToks, nl_memRefToks]
-theorem nl_qubit (q : Qubit) : Token.newLine ∉ qubitToks q := by cases q <;> simp [qubitToks, identTok]
+theorem nl_qubit (q : Qubit) : Token.newLine ∉ qubitToks q := by
+  cases q with
+  | fixed n => simp [qubitToks]
+  | placeholder k => simp [qubitToks]
+  | «variable» s => simp [qubitToks, Ne.symm (nameTok_not_punct s).2.2]
 theorem nl_qubits (qs : List Qubit) : Token.newLine ∉ qubitsToks qs := by
   simp only [qubitsToks, List.mem_flatMap, not_exists, not_and]
   intro q _; exact nl_qubit q
@@ -58,10 +69,100 @@ theorem nl_measureName (n : Option String) : Token.newLine ∉ measureNameToks n
 theorem nl_pragmaArg (a : PragmaArgument) : pragmaArgTok a ≠ Token.newLine := by
   cases a <;> simp [pragmaArgTok, identTok]
 
+theorem tokBits_ne_nl {t : Token} {m : Nat} (h : tokBits t = some m) : t ≠ .newLine := by
+  intro h'; subst h'; simp [tokBits] at h
+
+theorem nl_signedToks (f : Nat → Token) (b : Nat) (h : tokBits (f (fAbs b)) = some (fAbs b)) :
+    Token.newLine ∉ signedToks f b := by
+  unfold signedToks
+  by_cases hs : fSign b = true
+  · have : fAbs b = b - two63 := by
+      unfold fAbs; simp only [fSign, decide_eq_true_eq] at hs; simp [hs]
+    rw [this] at h
+    simp [hs, Ne.symm (tokBits_ne_nl h)]
+  · have : fAbs b = b := by
+      unfold fAbs; simp only [fSign, decide_eq_true_eq] at hs; simp [hs]
+    rw [this] at h
+    simp [hs, Ne.symm (tokBits_ne_nl h)]
+
+theorem nl_complexToks (F : NumFmt) (z : CBits) (h : numTokOkAt F z = true) :
+    Token.newLine ∉ complexToks F z := by
+  simp only [numTokOkAt, Bool.and_eq_true, beq_iff_eq] at h
+  have h1 := nl_signedToks F.real z.re h.1
+  have h2 := nl_signedToks F.imag z.im h.2
+  unfold complexToks
+  split
+  · simp
+  · split
+    · exact h1
+    · split
+      · simp [h2, tokI]
+      · split <;> simp [h1, h2, tokI]
+
+theorem nl_wrapIf (b : Bool) (ts : List Token) (h : Token.newLine ∉ ts) : Token.newLine ∉ wrapIf b ts := by
+  unfold wrapIf; split <;> simp [h]
+
+theorem nl_printTop (F : NumFmt) (e : PExpr) (h : numTokOk F e = true) : Token.newLine ∉ printTop F e := by
+  unfold numTokOk at h
+  induction e with
+  | address r => simp [printTop]
+  | call f e ih =>
+    simp only [allLits] at h
+    simp [printTop, ih h]
+  | bin l o r ihl ihr =>
+    simp only [allLits, Bool.and_eq_true] at h
+    simp only [printTop, List.mem_append, List.mem_cons, not_or]
+    exact ⟨nl_wrapIf _ _ (ihl h.1), by simp, nl_wrapIf _ _ (ihr h.2)⟩
+  | number z => simp only [allLits] at h; simp only [printTop]; exact nl_complexToks F z h
+  | pi => simp [printTop, tokPi]
+  | pre o e ih =>
+    simp only [allLits] at h
+    simp only [printTop, List.mem_append, not_or]
+    refine ⟨by cases o <;> simp [prefixToks], nl_wrapIf _ _ (nl_wrapIf _ _ (ih h))⟩
+  | var x => simp [printTop]
+
+
+theorem nl_frame (f : FrameIdentifier) : Token.newLine ∉ frameToks f := by
+  simp [frameToks, nl_qubits, strTok]
+
+theorem nl_sepBy (xs : List (List Token)) (h : ∀ x ∈ xs, Token.newLine ∉ x) :
+    Token.newLine ∉ sepBy [.comma] xs := by
+  induction xs with
+  | nil => simp [sepBy]
+  | cons x xs ih =>
+    cases xs with
+    | nil => simpa [sepBy] using h x (by simp)
+    | cons y ys =>
+      simp only [sepBy, List.mem_append, not_or]
+      exact ⟨⟨h x (by simp), by simp⟩, ih (fun z hz => h z (by simp [hz]))⟩
+
+theorem nl_params (F : NumFmt) (ps : List PExpr) (h : ps.all (numTokOk F) = true) :
+    Token.newLine ∉ paramsToks F ps := by
+  unfold paramsToks
+  split
+  · simp
+  · simp only [List.mem_cons, List.mem_append, not_or]
+    refine ⟨by simp, nl_sepBy _ ?_, by simp⟩
+    intro x hx
+    simp only [List.mem_map] at hx
+    obtain ⟨e, he, rfl⟩ := hx
+    exact nl_printTop F e (List.all_eq_true.mp h e he)
+
 /-- instructions of the proved kinds print on one line: no `newLine` among their raw tokens -/
-theorem noNL_of_provedKind (F : NumFmt) (i : Instruction) (hk : provedKind i = true) :
-    Token.newLine ∉ toks F i := by
+theorem noNL_of_provedKind (F : NumFmt) (i : Instruction) (hk : provedKind i = true)
+    (hn : numTokInstr F i = true) : Token.newLine ∉ toks F i := by
   cases i with
+  | gate g =>
+    obtain ⟨name, ps, qs, ms⟩ := g
+    simp only [numTokInstr] at hn
+    simp only [toks, gateToks, List.mem_append, List.mem_cons, List.mem_map, not_or, not_exists, not_and]
+    refine ⟨fun m _ => by cases m <;> simp [modifierTok], by simp [identTok], nl_params F ps hn, nl_qubits qs⟩
+  | setFrequency a => simp only [numTokInstr] at hn; simp [toks, cmd, nl_frame, nl_printTop F _ hn]
+  | setPhase a => simp only [numTokInstr] at hn; simp [toks, cmd, nl_frame, nl_printTop F _ hn]
+  | setScale a => simp only [numTokInstr] at hn; simp [toks, cmd, nl_frame, nl_printTop F _ hn]
+  | shiftFrequency a => simp only [numTokInstr] at hn; simp [toks, cmd, nl_frame, nl_printTop F _ hn]
+  | shiftPhase a => simp only [numTokInstr] at hn; simp [toks, cmd, nl_frame, nl_printTop F _ hn]
+  | swapPhases a => simp [toks, cmd, nl_frame]
   | declaration a =>
     obtain ⟨name, ⟨ty, len⟩, sharing⟩ := a
     have h1 : ¬ Token.newLine = scalarTok ty := fun h => nl_scalar ty h.symm
@@ -125,7 +226,31 @@ theorem firstErr_none_of_provedKind (i : Instruction) (hp : parsedInstr i = true
     cases q with
     | none => simp [firstErr]
     | some q => cases q <;> simp_all [parsedInstr, noPlaceholder, firstErr, qubitErr]
+  | gate a =>
+    simp only [parsedInstr, gateOk, Bool.and_eq_true] at hp
+    simp [firstErr, gateErr, qubitsErr_none _ hp.2]
+  | setFrequency a => simp only [parsedInstr, frameOk, Bool.and_eq_true] at hp; simp [firstErr, frameErr, qubitsErr_none _ hp.1.2]
+  | setPhase a => simp only [parsedInstr, frameOk, Bool.and_eq_true] at hp; simp [firstErr, frameErr, qubitsErr_none _ hp.1.2]
+  | setScale a => simp only [parsedInstr, frameOk, Bool.and_eq_true] at hp; simp [firstErr, frameErr, qubitsErr_none _ hp.1.2]
+  | shiftFrequency a => simp only [parsedInstr, frameOk, Bool.and_eq_true] at hp; simp [firstErr, frameErr, qubitsErr_none _ hp.1.2]
+  | shiftPhase a => simp only [parsedInstr, frameOk, Bool.and_eq_true] at hp; simp [firstErr, frameErr, qubitsErr_none _ hp.1.2]
+  | swapPhases a =>
+    simp only [parsedInstr, frameOk, Bool.and_eq_true] at hp
+    simp [firstErr, frameErr, firstSome, qubitsErr_none _ hp.1.2, qubitsErr_none _ hp.2.2]
   | _ => first | rfl | (simp [provedKind] at hk)
+
+theorem length_toks_le_programRaw (F : NumFmt) (L : List Instruction) (i : Instruction) (hi : i ∈ L) :
+    (toks F i).length ≤ (programRaw F L).length := by
+  induction L with
+  | nil => simp at hi
+  | cons j L ih =>
+    have e : programRaw F (j :: L) = toks F j ++ .newLine :: programRaw F L := by simp [programRaw]
+    rw [e]
+    simp only [List.mem_cons] at hi
+    simp only [List.length_append, List.length_cons]
+    rcases hi with rfl | hi
+    · omega
+    · have := ih hi; omega
 
 theorem firstErrList_none (L : List Instruction) (h : ∀ i ∈ L, firstErr i = none) : firstErrList L = none := by
   induction L with
